@@ -197,8 +197,42 @@ func c15DecodeAll(rd io.Reader) (recs [][]byte, term uint64) {
 	}
 }
 
+// c15State is a real consensus State (one validator, genesis state, InitialHeight 1) that is
+// never started.  Its catchupReplay -- the real function of consensus/replay.go -- is run on the
+// WAL of the case at every restart; the State's own height is set far away from every height
+// of the generated messages, so that readReplayMessage hands each decoded message to
+// handleMsg / handleTimeout, which drop it (wrong height), and the consensus state machine
+// stays out of the picture.
+var c15State *State
+
+func c15RealState() *State {
+	if c15State == nil {
+		cs, _ := randState(1)
+		cs.SetLogger(log.NewNopLogger())
+		cs.Height = 1 << 40
+		c15State = cs
+	}
+	return c15State
+}
+
+// realCatchup runs State.catchupReplay(csHeight) on the WAL of the case
+func (d *c15Drv) realCatchup(csHeight int64) (err error) {
+	cs := c15RealState()
+	old := cs.wal
+	cs.wal = d.wal
+	defer func() {
+		cs.wal = old
+		if p := recover(); p != nil {
+			err = fmt.Errorf("panic in catchupReplay: %v", p)
+		}
+	}()
+	return cs.catchupReplay(csHeight)
+}
+
 // the WAL part of State.catchupReplay(csHeight) with InitialHeight = 1: the same calls in the
-// same order; handing the decoded messages to the consensus state machine is left out.
+// same order; handing the decoded messages to the consensus state machine is left out.  Used
+// only to learn WHICH records a successful replay read (catchupReplay does not return them);
+// whether the replay succeeded, failed or ran into corruption is decided by the real function.
 func (d *c15Drv) catchup(csHeight int64) (replayed [][]byte, err error) {
 	gr, found, err := d.wal.SearchForEndHeight(csHeight, &WALSearchOptions{IgnoreDataCorruptionErrors: true})
 	if err != nil {
@@ -273,11 +307,17 @@ func (d *c15Drv) restart(keep, h int64, cu bool) (status uint64, repaired bool, 
 		repairAttempted := false
 	LOOP:
 		for {
-			var cerr error
-			replayed, cerr = d.catchup(h)
+			// the error State.OnStart looks at is the one the real catchupReplay returns
+			cerr := d.realCatchup(h)
 			switch {
 			case cerr == nil:
 				status = 0
+				// the records it replayed, by the transcription; status 4: the transcription
+				// does not get through where the real function did
+				var terr error
+				if replayed, terr = d.catchup(h); terr != nil {
+					status = 4
+				}
 				break LOOP
 			case !IsDataCorruptionError(cerr):
 				status = 1
